@@ -377,6 +377,7 @@ func TestCheck(t *testing.T) {
 	concurrentPhase(run)
 	electionRace(run)
 	flushAllWithReaders(run)
+	flushAfterPrimaryLeft(run)
 	run.Assume("expected gRPC codes: INVALID_ARGUMENT for missing/empty/unknown network instance and zero id; FAILED_PRECONDITION for a lower id, a missing election field when an id was learnt, or an id when none was learnt; where a request is malformed in two ways either code is accepted; detail reasons are not asserted")
 	run.Finish("A: the complete decision table {no id learnt, 4 learnt 128-bit ids} x {absent, override, zero, equal, low+-1, high+-1 with opposing low} x {NI absent, empty, unknown, default, VRF1, all} on servers with generated contents - status code, contents unchanged / emptied exactly, election state untouched, consistent aftermath (further ops + delete sweep judged by the model). B: authorised flushes of every target selection over generated reference-closed and dangling RIBs (shared / missing / cyclic backup groups, cross-NI refs both ways, duplicate next-hop indices), up to 3 rounds with operations in between. C: a Flush naming one instance concurrent with deletes of unreferenced groups / next-hops of that instance by four goroutines (yield points perturbed): everything answered, instance empty, the other untouched, counters == recount, consistent aftermath. D: two sessions winning the election in turn in quick succession while four goroutines send Flushes carrying a lower id: none issued after the higher election was answered may be accepted, nor one at quiescence. Distinct = by decision cell + contents / by history", 100, false)
 }
